@@ -335,7 +335,7 @@ def _make_attrs(mesh, plan, rng):
         if n == 0:
             continue
         spec = zin.attr_spec(rng, a["type"], a["arity"], a["dense"], a.get("dflt", False), n, a.get("fill", 0.5))
-        name = a.get("name", spec["name"])
+        name = a.get("name", spec["name"] + "_" + a["on"])  # unique per container: a name found elsewhere means "wrong container"
         attr = cont.create_attribute(name, PYTYPE[a["type"]], a["arity"], dense=a["dense"], default_value=spec["default"])
         for i, v in spec["values"].items():
             attr[i] = v
@@ -852,7 +852,7 @@ def _foreign_attrs(rng, plan, sizes):
             if rtype == "index_t":
                 v = [abs(x) % 4000000000 for x in v]
             vals.append(v[0] if a["arity"] == 1 else v)
-        name = "r_%s%d" % (rtype, a["arity"])
+        name = "r_%s%d_%s" % (rtype, a["arity"], a["on"])
         if (GEO_SET[a["on"]], name) in attrs:
             continue
         attrs[(GEO_SET[a["on"]], name)] = {"type": rtype, "dim": a["arity"], "values": vals}
